@@ -534,6 +534,8 @@ func checkC06(ck *Check) {
 		// … and its denominator: the allocatable resources of every untainted node
 		ck.commutativeFold("C06.R12", kp.Func("CalculateNodesCapacity"), "Total")
 	}
+	// R13 exactly that many: a taint the server accepted is counted (decided as C03.R6)
+	ck.writeConfirmed("C06.R13", a.AddTaint)
 	// R8 the statement quantifies over the triples and rate pairs validation accepts: the band switch
 	// (first true case wins) is the documented table only if 0 < lower < upper < scale-up, 0 ≤ slow ≤ fast
 	if a.Validate != nil {
@@ -974,6 +976,9 @@ func checkC07(ck *Check) {
 	// R10 … and the loop is offered all of them: the tainted list handed to ScaleUp is the classifier's
 	// whole result, not a filtered copy (decided as C01.R5 / C09.R2)
 	ck.scaleOptsBinding("C07.R10")
+	// R11 a node counted as reused has lost the escalator taint: the untaint searches the fetched
+	// node's own taint list and removes the element it found there (decided as C15.R4 / R5)
+	ck.shareRules(checkC15, "C07.R11", "C15.R4", "C15.R5")
 	// R5 typestate
 	ck.cacheTypestate("C07.R5")
 	// R6
